@@ -101,6 +101,13 @@ def S_to_bits(nb, canon, be=False):
         assert len(O) == n, (len(O), n)
         bits = AND(*[isbit(o) for o in outs])
         v = e.named_sum([(1 << i, o) for i, o in enumerate(outs)])
+        if canon and n >= NB:
+            # canonical full-width decomposition, stated as: the bits represent an integer below p (unsigned
+            # bit-vector reading of the same bits, as in S_bits_cmp) that is congruent to x modulo p. For
+            # 0 <= x < p this is the same statement as `x = v` over the integers (a residue class has one
+            # representative below p); the bit-vector form lets the solver bit-blast the comparison
+            # instead of doing 255-bit linear arithmetic (the integer form does not finish in 600 s).
+            return AND(bits, f"(bvult {bv_of_bits(outs)} {bvlit(P, n)})", f"(= (mod (- {v} {A(I[0])}) {P}) 0)")
         if canon or n < NB:
             return AND(bits, eq(I[0], v))
         return AND(bits, OR(eq(I[0], v), eq(f"(+ {A(I[0])} {P})", v)))
